@@ -2928,8 +2928,11 @@ impl<Alloc: BrotliAlloc> BrotliEncoderStateStruct<Alloc> {
         {
             return false;
         }
-        if (self.params.quality == 0i32 || self.params.quality == 1i32) && !self.params.catable {
-            // this part of the code does not support concatability
+        if (self.params.quality == 0i32 || self.params.quality == 1i32)
+            && !self.params.catable
+            && !self.params.magic_number
+        {
+            // this part of the code supports neither concatability nor the magic-number header
             return self.compress_stream_fast(
                 op,
                 available_in,
